@@ -259,7 +259,7 @@ func ccfbSpansWrap(p m.Packet) bool {
 // decodeDirect decodes b with a fresh receiver of kind k through the type's own decoder.
 func decodeDirect(k m.Kind, b []byte) (m.Packet, error) {
 	recv := conv.New(k)
-	in := append([]byte(nil), b...)
+	in := exactCopy(b)
 	if err := recv.Unmarshal(in); err != nil {
 		return m.Packet{}, err
 	}
@@ -270,8 +270,16 @@ func decodeDirect(k m.Kind, b []byte) (m.Packet, error) {
 }
 
 // decodeDatagram decodes b through rtcp.Unmarshal.
+// exactCopy copies b into a slice whose capacity equals its length, so that a decoder that
+// reads past the end of what it was given panics instead of seeing spare capacity.
+func exactCopy(b []byte) []byte {
+	in := make([]byte, len(b))
+	copy(in, b)
+	return in[:len(b):len(b)]
+}
+
 func decodeDatagram(b []byte) ([]rtcp.Packet, error) {
-	in := append([]byte(nil), b...)
+	in := exactCopy(b)
 	ps, err := rtcp.Unmarshal(in)
 	if err != nil {
 		if ps != nil {
